@@ -110,15 +110,19 @@ def _state_stores(cf, f, memo_names=()):
   return out
 
 
-def run(repo, rep, tier):
-  cls = repo.cls(CLASS)
+def analyse_class(repo, rep, class_q, floors=None, prefix=''):
+  """Cache-invalidation discipline of one class. floors: dict with minimal counts
+  (memo, writers, pairs, cached) or None for classes that may have no memo field."""
+  cls = repo.cls(class_q)
   cf = classfx.ClassFields(cls)
   for f in cf.funcs.values():
     rep.fn(f)
   memo = _memo_fields(cf)
   memo_names = set(memo)
-  rep.floor('memo fields discovered', len(memo_names), 7)
-  rep.extra['memo_fields'] = sorted(memo_names)
+  if floors:
+    rep.floor('memo fields discovered', len(memo_names), floors.get('memo', 0))
+  rep.extra.setdefault('memo_fields', {})[class_q] = sorted(memo_names)
+  R = lambda r: prefix + r
 
   # dependency sets: fields read (transitively) by the functions computing the memo
   deps = {}
@@ -127,19 +131,21 @@ def run(repo, rep, tier):
     for f, node in sites:
       d |= cf.reads(f)
     deps[name] = d - {name}
-  rep.extra['memo_dependencies'] = {k: sorted(v) for k, v in sorted(deps.items())}
+  rep.extra.setdefault('memo_dependencies', {})[class_q] = {k: sorted(v) for k, v in sorted(deps.items())}
 
-  # writers: every function other than __init__ that installs state into a non-memo field
+  # writers: every function other than __init__ that installs state into a non-memo field,
+  # or calls a state-changing method on an object held in a field
   writers = []
   for f in cf.funcs.values():
     if f.name == '__init__':
       continue
     st = {k: v for k, v in _state_stores(cf, f, memo_names).items() if k not in memo_names}
+    st.update(_subobject_writes(repo, cf, f))
     if st:
       writers.append((f, st))
-  # also functions that write state only through setters (y's setter calls x's): handled via summaries
-  rep.floor('writers of input fields', len(writers), 2)
-  rep.extra['writers'] = {f.qualname: sorted(st) for f, st in writers}
+  if floors:
+    rep.floor('writers of input fields', len(writers), floors.get('writers', 0))
+  rep.extra.setdefault('writers', {}).update({f.qualname: sorted(st) for f, st in writers})
 
   n_pairs = 0
   for f, st in writers:
@@ -148,14 +154,13 @@ def run(repo, rep, tier):
     for m in sorted(memo_names):
       written = sorted(set(st) & deps[m])
       if not written:
-        rep.ok('R2/must-reset', '%s: %s independent of %s' % (f.qualname, m, sorted(st)), nontrivial=False, loc=f.loc())
+        rep.ok(R('R2/must-reset'), '%s: %s independent of %s' % (f.qualname, m, sorted(st)), nontrivial=False, loc=f.loc())
         continue
       n_pairs += 1
       rnodes = resets.get(m, set())
       bad = None
       for fld in written:
         for snode in st[fld]:
-          # a walk entry -> store -> normal exit that avoids every reset of m
           if snode in rnodes:
             continue
           p1 = g.path_avoiding(g.entry, lambda n: n is snode, lambda n: n in rnodes, no_exc)
@@ -172,16 +177,19 @@ def run(repo, rep, tier):
         fld, snode, p1, p2 = bad
         via = ' -> '.join('L%d' % n.lineno for n, _ in (p1 + p2[1:]) if n.lineno)
         rep.violation(
-            'R2/must-reset', f.qualname, 'self.%s written without resetting self.%s' % (fld, m),
+            R('R2/must-reset'), f.qualname, 'self.%s written without resetting self.%s' % (fld, m),
             'cached field %s (depends on %s) is not reset on the path %s through %s, so a stale value is served after the input changes'
             % (m, fld, via, f.qualname), f.loc(snode.ast))
       else:
-        rep.ok('R2/must-reset', '%s resets %s whenever it stores %s' % (f.qualname, m, written),
+        rep.ok(R('R2/must-reset'), '%s resets %s whenever it stores %s' % (f.qualname, m, written),
                'reset nodes at lines %s' % sorted(n.lineno for n in rnodes), f.loc())
-  rep.floor('(writer, dependent memo) pairs', n_pairs, 14)
+  if floors:
+    rep.floor('(writer, dependent memo) pairs', n_pairs, floors.get('pairs', 0))
 
-  # uniform-write: a field stored on some normal path of a writer is stored on every normal path
+  # uniform-write: a field stored on some normal path of a setter is stored on every normal path
   for f, st in writers:
+    if f.kind != 'setter':
+      continue
     g = cf.cfg(f)
     allstores = {}
     for name, node, value, via in cf.stores(f):
@@ -191,11 +199,11 @@ def run(repo, rep, tier):
       p = g.path_avoiding(g.entry, lambda n: n is g.exit, lambda n: n in nodes, no_exc)
       if p is not None:
         via = ' -> '.join('L%d' % n.lineno for n, _ in p if n.lineno)
-        rep.violation('R2/uniform-write', f.qualname, 'self.%s stored on some paths only' % fld,
+        rep.violation(R('R2/uniform-write'), f.qualname, 'self.%s stored on some paths only' % fld,
                       '%s stores %s on some normal paths but not on the path %s: the field keeps its old value there'
                       % (f.qualname, fld, via), f.loc())
       else:
-        rep.ok('R2/uniform-write', '%s stores %s on every normal path' % (f.qualname, fld), loc=f.loc())
+        rep.ok(R('R2/uniform-write'), '%s stores %s on every normal path' % (f.qualname, fld), loc=f.loc())
 
   # R3: memoising decorators must not read instance state
   inst = cf.instance_fields()
@@ -204,8 +212,44 @@ def run(repo, rep, tier):
     if any('cache' in d for d in f.decorators):
       n_cached += 1
       bad = sorted(cf.reads(f) & inst)
-      rep.check(not bad, 'R3/cached-method-pure', '%s reads no instance field' % f.qualname, f.qualname,
+      rep.check(not bad, R('R3/cached-method-pure'), '%s reads no instance field' % f.qualname, f.qualname,
                 'cached method reads ' + ', '.join('self.' + b for b in bad),
                 '%s is memoised by %s but reads instance state %s, which can change after the first call'
                 % (f.qualname, f.decorators, bad), f.loc())
-  rep.floor('memoised (lru_cache) methods', n_cached, 2)
+  if floors:
+    rep.floor('memoised (lru_cache) methods', n_cached, floors.get('cached', 0))
+  return memo_names, deps
+
+
+def _subobject_writes(repo, cf, f):
+  """field -> [nodes] for calls `self.F.m(...)` where m changes the state of the object held in F
+  (m is a method of a repo class with attribute stores, e.g. self.tbr_cost.fit(...))."""
+  out = {}
+  sn = cf.selfname(f)
+  g = cf.cfg(f)
+  for n in g.nodes:
+    for e in classfx._node_exprs(n):
+      for sub in walk_no_nested(e):
+        if isinstance(sub, ast.Call) and isinstance(sub.func, ast.Attribute) and isinstance(sub.func.value, ast.Attribute):
+          fld = classfx.self_attr(sub.func.value, sn)
+          if fld is None:
+            continue
+          m = sub.func.attr
+          owners = [c for c in repo.classes.values() if m in c.methods]
+          if any(_has_self_stores(c.methods[m]) for c in owners):
+            out.setdefault(fld, []).append(n)
+  return out
+
+
+def _has_self_stores(f):
+  sn = f.params[0] if f.params else None
+  for s in walk_no_nested(f.node):
+    if isinstance(s, (ast.Assign, ast.AugAssign)):
+      for t in (s.targets if isinstance(s, ast.Assign) else [s.target]):
+        if isinstance(t, ast.Attribute) and isinstance(t.value, ast.Name) and t.value.id == sn:
+          return True
+  return False
+
+
+def run(repo, rep, tier):
+  analyse_class(repo, rep, CLASS, floors={'memo': 7, 'writers': 2, 'pairs': 14, 'cached': 2})
